@@ -340,3 +340,78 @@ def all_value_terms(outs):
                 if not k.startswith("$") and isinstance(v, tuple):
                     vals.append(v)
     return ("bag",) + tuple(vals)
+
+
+# --------------------------------------------------------------------------- even-function normal form
+def lead_negative(arg):
+    """canonical sign of a sum: True if the summand with the smallest (coefficient-free) key has a negative coefficient"""
+    c, rest = T.split_coeff(arg)
+    if rest[0] == "mul":
+        sums = [f for f in rest[1:] if f[0] == "add"]
+        if len(sums) == 1:
+            inner_neg = lead_negative(sums[0])
+            return (c < 0) != inner_neg
+        return c < 0
+    if rest[0] == "add":
+        best = None
+        for s in rest[1:]:
+            cc, rr = T.split_coeff(s)
+            k = T.sortkey(rr)
+            if best is None or k < best[0]:
+                best = (k, cc)
+        return (c < 0) != (best[1] < 0)
+    return c < 0
+
+
+def canon_sign(arg):
+    """canonical representative of {arg, -arg}: positive numeric coefficient and a sum whose
+    leading summand (smallest coefficient-free key) is positive"""
+    c, rest = T.split_coeff(arg)
+
+    def flip(sm):
+        return T.add(*[T.neg(x) for x in sm[1:]])
+    if rest[0] == "add":
+        sm = flip(rest) if lead_negative(rest) else rest
+        return T.mul(T.num(abs(c)), sm)
+    if rest[0] == "mul":
+        sums = [f for f in rest[1:] if f[0] == "add"]
+        if len(sums) == 1:
+            others = [f for f in rest[1:] if f is not sums[0]]
+            sm = flip(sums[0]) if lead_negative(sums[0]) else sums[0]
+            return T.mul(T.num(abs(c)), sm, *others)
+    return T.mul(T.num(abs(c)), rest)
+
+
+def even_norm(t, _memo=None):
+    """rewrite cos(x) and sin(x)**(2k) so that x has canonical sign (cos(-x) = cos(x),
+    sin(-x)^2 = sin(x)^2); everything else is rebuilt unchanged."""
+    if _memo is None:
+        _memo = {}
+    if not isinstance(t, tuple) or not t:
+        return t
+    if id(t) in _memo:
+        return _memo[id(t)][1]
+    h = t[0]
+    if not isinstance(h, str):
+        r = tuple(even_norm(x, _memo) for x in t)
+    elif h in ("num", "sym", "str", "bool", "none", "opaque"):
+        r = t
+    elif h == "call" and t[1] == "cos" and len(t) == 3:
+        a = even_norm(t[2], _memo)
+        r = ("call", "cos", canon_sign(a))
+    elif h == "pow" and t[2][0] == "num" and t[2][1].denominator == 1 and t[2][1] % 2 == 0 \
+            and t[1][0] == "call" and t[1][1] == "sin" and len(t[1]) == 3:
+        a = even_norm(t[1][2], _memo)
+        r = ("pow", ("call", "sin", canon_sign(a)), t[2])
+    elif h == "call":
+        r = ("call", t[1]) + tuple(even_norm(x, _memo) for x in t[2:])
+    elif h == "add":
+        r = T.add(*[even_norm(x, _memo) for x in t[1:]])
+    elif h == "mul":
+        r = T.mul(*[even_norm(x, _memo) for x in t[1:]])
+    elif h == "pow":
+        r = T.power(even_norm(t[1], _memo), even_norm(t[2], _memo))
+    else:
+        r = (h,) + tuple(even_norm(x, _memo) if isinstance(x, tuple) else x for x in t[1:])
+    _memo[id(t)] = (t, r)
+    return r
